@@ -151,6 +151,8 @@ def py_spec_body(v) -> bool:
 
 # ---------- running the implementation ----------
 QUERY = "query Q { x }"
+MUTATION = "mutation Q($file: Upload!) { up(file: $file) }"
+PATHS = ("json", "multipart")
 
 
 def observe(v, client, resp):
@@ -166,17 +168,21 @@ def observe(v, client, resp):
             text = ("str", str(e))
         except Exception as se:  # noqa: BLE001 — __str__ returning a non-string
             text = ("str-raises", type(se).__name__)
+        # the caller's view: which of the documented classes does `except <class>` catch?  "exactly one documented
+        # outcome" = exactly one of them, so every order of except clauses ends in the same handler
+        docs = (exc_mod.GraphQLClientHttpError, exc_mod.GraphQLClientInvalidResponseError, exc_mod.GraphQLClientGraphQLMultiError)
+        caught = tuple(isinstance(e, c) for c in docs)
         if t is exc_mod.GraphQLClientHttpError and m.GraphQLClientHttpError is t:
-            return ("http", e.status_code, e.response is resp, isinstance(e, exc_mod.GraphQLClientError), text)
+            return ("http", e.status_code, e.response is resp, isinstance(e, exc_mod.GraphQLClientError), caught, text)
         if t is exc_mod.GraphQLClientInvalidResponseError and m.GraphQLClientInvalidResponseError is t:
-            return ("invalid", e.response is resp, isinstance(e, exc_mod.GraphQLClientError), text)
+            return ("invalid", e.response is resp, isinstance(e, exc_mod.GraphQLClientError), caught, text)
         if t is exc_mod.GraphQLClientGraphQLMultiError and m.GraphQLClientGraphQLMultiError is t:
             errs = []
             for g in e.errors:
                 if type(g) is not exc_mod.GraphQLClientGraphQLError:
                     return ("crash", f"error object of type {type(g).__name__}")
                 errs.append((canon(g.message), canon(g.locations), canon(g.path), canon(g.extensions), canon(g.original)))
-            return ("multi", errs, canon(e.data), isinstance(e, exc_mod.GraphQLClientError), text)
+            return ("multi", errs, canon(e.data), isinstance(e, exc_mod.GraphQLClientError), caught, text)
         return ("crash", t.__name__)
     return ("data", canon(d))
 
@@ -191,30 +197,47 @@ def _worker(args):
     def handler(request):
         return httpx.Response(cur["st"], content=cur["raw"], headers=({"content-type": cur["ct"]} if cur["ct"] else {}))
 
+    import io
+
+    bm = _clients.dep_module("base_model")
+
+    def variables_of(path):
+        # both request paths of execute: JSON, and multipart (an Upload among the variables)
+        if path == "json":
+            return {}
+        return {"file": bm.Upload(filename="f.txt", content=io.BytesIO(b"data"), content_type="text/plain")}
+
     out = []
     if v.is_async:
         async def go():
             client = v.make(httpx.MockTransport(handler))
             for st, raw, ct in cases:
                 cur["st"], cur["raw"], cur["ct"] = st, raw, ct
-                try:
-                    resp = await client.execute(QUERY, operation_name="Q", variables={})
-                except Exception as e:  # noqa: BLE001 — nothing may escape execute for a scripted response
-                    out.append(("execute-raised", f"{type(e).__name__}"))
-                    continue
-                out.append(observe(v, client, resp))
+                pair = []
+                for path in PATHS:
+                    try:
+                        resp = await client.execute(QUERY if path == "json" else MUTATION, operation_name="Q",
+                                                    variables=variables_of(path))
+                    except Exception as e:  # noqa: BLE001 — nothing may escape execute for a scripted response
+                        pair.append(("execute-raised", f"{type(e).__module__}.{type(e).__name__}"))
+                        continue
+                    pair.append(observe(v, client, resp))
+                out.append(tuple(pair))
             await client.http_client.aclose()
         _clients.run_coro(go())
     else:
         client = v.make(httpx.MockTransport(handler))
         for st, raw, ct in cases:
             cur["st"], cur["raw"], cur["ct"] = st, raw, ct
-            try:
-                resp = client.execute(QUERY, operation_name="Q", variables={})
-            except Exception as e:  # noqa: BLE001
-                out.append(("execute-raised", f"{type(e).__name__}"))
-                continue
-            out.append(observe(v, client, resp))
+            pair = []
+            for path in PATHS:
+                try:
+                    resp = client.execute(QUERY if path == "json" else MUTATION, operation_name="Q", variables=variables_of(path))
+                except Exception as e:  # noqa: BLE001
+                    pair.append(("execute-raised", f"{type(e).__module__}.{type(e).__name__}"))
+                    continue
+                pair.append(observe(v, client, resp))
+            out.append(tuple(pair))
         client.http_client.close()
     return v.name, out
 
@@ -225,11 +248,12 @@ def model_obs(r):
     kind = o[0]
     text = ("str-raises", "TypeError") if r[3] == "none" else ("str", r[3][1])
     if kind == "http":
-        return ("http", int(o[1]), True, True, text)
+        return ("http", int(o[1]), True, True, (True, False, False), text)
     if kind == "invalid":
-        return ("invalid", True, True, text)
+        return ("invalid", True, True, (False, True, False), text)
     if kind == "multi":
-        return ("multi", [tuple(canon(sx_json(x)) for x in g) for g in o[1]], canon(sx_json(o[2])), True, text)
+        return ("multi", [tuple(canon(sx_json(x)) for x in g) for g in o[1]], canon(sx_json(o[2])), True,
+                (False, False, True), text)
     if kind == "data":
         return ("data", canon(sx_json(o[1])))
     if kind == "crash":
@@ -241,18 +265,19 @@ def model_obs(r):
 def k3_expected(st, case):
     """None when the property text does not judge the input (errors not spec-shaped)."""
     if not (200 <= st <= 299):
-        return ("http", st, True, True)
+        return ("http", st, True, True, (True, False, False))
     if case.body == ("none",):
-        return ("invalid", True, True)
+        return ("invalid", True, True, (False, True, False))
     v = case.body[1]
     if not isinstance(v, dict) or ("data" not in v and "errors" not in v):
-        return ("invalid", True, True)
+        return ("invalid", True, True, (False, True, False))
     if not case.spec:
         return None
     errs = v.get("errors")
     if errs:
         return ("multi", [(canon(e["message"]), canon(e.get("locations")), canon(e.get("path")),
-                           canon(e.get("extensions")), canon(e)) for e in errs], canon(v.get("data")), True)
+                           canon(e.get("extensions")), canon(e)) for e in errs], canon(v.get("data")), True,
+                (False, False, True))
     return ("data", canon(v.get("data")))
 
 
@@ -302,17 +327,20 @@ def run(ctx):
         if len(obs) != len(cells):
             run.broken("impl run", f"{vname}: {len(obs)} of {len(cells)} observations")
             continue
-        for (st, c), r, o, ct in zip(cells, mres, obs, cell_ct):
-            run.count()
-            mo = model_obs(r)
-            if o != mo:
-                k1_bad.append((vname, st, c, o, mo, ct))
-            exp = k3_expected(st, c)
-            if exp is not None and o[:len(exp)] != exp:
-                k3_fail.append((vname, st, c, o, exp, ct))
-            elif exp is None and o[0] == "execute-raised":
-                # the response never reached get_data: "no other exception type escapes" fails whatever the body
-                k3_fail.append((vname, st, c, o, ("(any get_data outcome)",), ct))
+        for (st, c), r, pair, ct in zip(cells, mres, obs, cell_ct):
+            for path, o in zip(PATHS, pair):
+                run.count()
+                pv = f"{vname} [{path} request]"
+                mo = model_obs(r)
+                if o != mo:
+                    k1_bad.append((pv, st, c, o, mo, ct))
+                exp = k3_expected(st, c)
+                if exp is not None and o[:len(exp)] != exp:
+                    k3_fail.append((pv, st, c, o, exp, ct))
+                elif exp is None and o[0] == "execute-raised":
+                    # the response never reached get_data: "no other exception type escapes" fails whatever the body
+                    k3_fail.append((pv, st, c, o, ("(any get_data outcome)",), ct))
+            o = pair[0]
             if vname == results[0][0]:
                 kinds[mo[0]] = kinds.get(mo[0], 0) + 1
                 run.dist("status_class", "2xx" if 200 <= st <= 299 else ("out-of-range" if st in STATUSES_ODD else f"{st // 100}xx"))
@@ -334,7 +362,9 @@ def run(ctx):
             continue
         seen.add(key)
         run.violation(
-            f"{vname}: status {st} (response Content-Type {ct}) body {c.raw[:120]!r} ({c.cls}): property demands {exp[0]}, get_data gave {o[0]}",
+            f"{vname}: status {st} (response Content-Type {ct}) body {c.raw[:120]!r} ({c.cls}): property demands {exp[0]}, get_data gave {o[0]}"
+            + (f"; `except` on the documented classes (Http, InvalidResponse, MultiError) matches {o[-2]}, exactly one must: {exp[-1]}"
+               if o[0] == exp[0] and len(o) > 2 and isinstance(o[-2], tuple) and o[-2] != exp[-1] else ""),
             {"client": vname, "status": st, "response_content_type": ct, "body": c.raw.decode("latin-1"), "body_class": c.cls,
              "expected": exp, "observed": o})
         if len(seen) >= 8:
